@@ -81,6 +81,26 @@ def main():
     res = json.load(open(os.path.join(wd, "parse2.json")))
     whats = sorted(m["what"].split(" (")[0] for m in (res.get("language") or []) + (res.get("steps") or []))
     report("parser, hash / count / verdict / tree corrupted once each", ["accept / reject", "parser steps", "step trace", "syntax tree"], whats)
+    # 4. evaluation traces: result and resolve events of spec/Eval.tla against the real evaluator under a recording hook
+    data = json.loads(vlib.harness(["data", "-worlds", "json"]).stdout)
+    m = vlib.match
+    ex = [{"t": "and", "l": m(["meta", "env"], "==", "prod"), "r": m(["meta", "zz"], "==", "x")}, {"t": "or", "l": m(["name"], "==", "web"), "r": m(["zz"], "==", "1")},
+          {"t": "coll", "op": "any", "sel": {"ty": "bexpr", "path": ["tags"]}, "mode": "default", "n1": "v", "n2": "", "e": m(["v"], "==", "b")},
+          {"t": "coll", "op": "all", "sel": {"ty": "bexpr", "path": ["meta"]}, "mode": "both", "n1": "k", "n2": "v", "e": m(["v"], "!=", "zzz")}]
+    r = vlib.run_machine(chk, "self-ev", data["docs"], data["cfgs"], [0, 2], ex, worlds=["json"])
+    report("evaluation traces as recorded (%d, %d events)" % (r.evtrace["traces"], r.evtrace["events"]), [], [1 for _ in (r.evtrace.get("trace") or []) + (r.evtrace.get("outcome") or [])])
+    wd = vlib.sub("self-ev")
+    cases = [json.loads(l) for l in open(os.path.join(wd, "cases.ndjson"))]
+    long = [i for i, c in enumerate(cases) if len(c["hlog"]) >= 2]
+    a, b = long[0], long[-1]
+    cases[a]["hlog"] = cases[a]["hlog"][1:] + cases[a]["hlog"][:1] if cases[a]["hlog"][0] != cases[a]["hlog"][1] else cases[a]["hlog"][1:]   # order of two events
+    cases[b]["ret"] = flip.get(cases[b]["ret"], "T")
+    with open(os.path.join(wd, "cases.ndjson"), "w") as fh:
+        for c in cases:
+            fh.write(json.dumps(c) + "\n")
+    vlib.harness(["evtrace", "-world", os.path.join(wd, "world.json"), "-cases", os.path.join(wd, "cases.ndjson"), "-out", os.path.join(wd, "ev2.json")])
+    res = json.load(open(os.path.join(wd, "ev2.json")))
+    report("evaluation traces, one event order and one result corrupted", ["outcome", "resolve events"], sorted(x["what"] for x in (res.get("trace") or []) + (res.get("outcome") or [])))
     print("SELFTEST %s" % ("passed" if ok else "FAILED"))
     return 0 if ok else 1
 
